@@ -252,43 +252,47 @@ int h3amb_pthread_spin_lock(pthread_spinlock_t *l) {
 // ---- libc facilities with hidden static state (not re-entrant) -------------------------------------------
 // Real behaviour, plus a preferred preemption point on return: the window in which another task can disturb the
 // hidden state (strtok's saved pointer, the static struct tm / message buffer, the process locale) opens here.
-static void nrPoint() {
+static void nrPoint(const char *mtUnsafe) {
     g_reads.nonReentrant++;
+    if (mtUnsafe) {
+        g_reads.hiddenStatic++;
+        g_reads.lastHiddenStatic = mtUnsafe;
+    }
     if (ambientPreferHook) ambientPreferHook();
 }
 char *h3amb_strtok(char *s, const char *d) {
     char *r = strtok(s, d);
-    nrPoint();
+    nrPoint("strtok");
     return r;
 }
 struct tm *h3amb_localtime(const time_t *t) {
     struct tm *r = localtime(t);
-    nrPoint();
+    nrPoint("localtime");
     return r;
 }
 struct tm *h3amb_gmtime(const time_t *t) {
     struct tm *r = gmtime(t);
-    nrPoint();
+    nrPoint("gmtime");
     return r;
 }
 char *h3amb_asctime(const struct tm *t) {
     char *r = asctime(t);
-    nrPoint();
+    nrPoint("asctime");
     return r;
 }
 char *h3amb_ctime(const time_t *t) {
     char *r = ctime(t);
-    nrPoint();
+    nrPoint("ctime");
     return r;
 }
 char *h3amb_strerror(int e) {
     char *r = strerror(e);
-    nrPoint();
+    nrPoint(nullptr);
     return r;
 }
 char *h3amb_setlocale(int cat, const char *l) {
     char *r = setlocale(cat, l);
-    nrPoint();
+    nrPoint(l ? "setlocale" : nullptr);  // a pure query (NULL) changes nothing
     return r;
 }
 }
